@@ -147,8 +147,12 @@ func (c *Authority) VerifyTimeoutCert(tc hotstuff.TimeoutCert) error {
 	if tc.View() == 0 {
 		return nil
 	}
+	tcSignature := tc.Signature()
+	if tcSignature == nil {
+		return fmt.Errorf("timeout certificate has nil signature (view=%d)", tc.View())
+	}
 	quorumSize := c.config.QuorumSize()
-	participants := tc.Signature().Participants()
+	participants := tcSignature.Participants()
 	if participants.Len() < quorumSize {
 		return fmt.Errorf("%d participants cannot satisfy the quorum requirement: %d", participants.Len(), quorumSize)
 	}
